@@ -2,7 +2,7 @@
 namespace Cider.Gen
 
 /-- translated from localcider/backend/sequence.py:Sequence.phasePlotRegion (line 544) -/
-def phasePlotRegion (FCR : Rat) (NCPR : Rat) (Fplus : Rat) (Fminus : Rat) : Except Unit Rat :=
+def phasePlotRegion (FCR : Rat) (NCPR : Rat) (Fplus : Rat) (Fminus : Rat) : Except Unit (Rat) :=
   let fcr : Rat := FCR
   let ncpr : Rat := NCPR
   if (fcr < ((1 : Rat) / 4)) then
@@ -26,7 +26,7 @@ def phasePlotRegion (FCR : Rat) (NCPR : Rat) (Fplus : Rat) (Fminus : Rat) : Exce
             .error ()
 
 /-- translated from localcider/backend/sequence.py:Sequence.kappa (line 415) -/
-def kappaDecision (deltaMax : Rat) (delta : Rat) : Except Unit Rat :=
+def kappaDecision (deltaMax : Rat) (delta : Rat) : Except Unit (Rat) :=
   if (deltaMax = (0 : Rat)) then
     .ok (-(1 : Rat))
   else
@@ -37,21 +37,21 @@ def kappaDecision (deltaMax : Rat) (delta : Rat) : Except Unit Rat :=
       .ok kappaVal
 
 /-- translated from localcider/backend/sequence.py:Sequence.sigma (line 1093) -/
-def sigmaDecision (countNeut : Rat) (len : Rat) (NCPR : Rat) (FCR : Rat) : Except Unit Rat :=
+def sigmaDecision (countNeut : Rat) (len : Rat) (NCPR : Rat) (FCR : Rat) : Except Unit (Rat) :=
   if (countNeut = len) then
     .ok (0 : Rat)
   else
     .ok ((NCPR * NCPR) / FCR)
 
 /-- translated from localcider/backend/sequence.py:Sequence._Sequence__check_window_to_length (line 1957) -/
-def checkWindow (bloblen : Rat) (len_seq : Rat) : Except Unit Rat :=
+def checkWindow (bloblen : Rat) (len_seq : Rat) : Except Unit (Rat) :=
   if (len_seq < bloblen) then
     .error ()
   else
     .ok 0
 
 /-- translated from localcider/sequenceParameters.py:SequenceParameters._SequenceParameters__verify_pH (line 1046) -/
-def verifyPH (pH : Rat) : Except Unit Rat :=
+def verifyPH (pH : Rat) : Except Unit (Rat) :=
   if (pH < ((0 : Rat) / 1)) then
     .error ()
   else
@@ -61,13 +61,130 @@ def verifyPH (pH : Rat) : Except Unit Rat :=
       .ok 0
 
 /-- translated from localcider/backend/wang_landau.py:WangLandauMachine.indexInsideRelevantRegion (line 285) -/
-def insideRelevant (idx : Rat) (relevant_max : Rat) (relevant_min : Rat) : Except Unit Rat :=
+def insideRelevant (idx : Rat) (relevant_max : Rat) (relevant_min : Rat) : Except Unit (Rat) :=
   if ((idx ≤ relevant_max) ∧ (idx ≥ relevant_min)) then
     .ok (1 : Rat)
   else
     .ok (0 : Rat)
 
+/-- translated from localcider/backend/sequence.py:Sequence.Fplus (line 254) -/
+def fplusSrc (countPos : Rat) (len : Rat) : Except Unit (Rat) :=
+  .ok (countPos / (len + ((0 : Rat) / 1)))
+
+/-- translated from localcider/backend/sequence.py:Sequence.Fminus (line 259) -/
+def fminusSrc (countNeg : Rat) (len : Rat) : Except Unit (Rat) :=
+  .ok (countNeg / (len + ((0 : Rat) / 1)))
+
+/-- translated from localcider/backend/sequence.py:Sequence.FCR (line 264) -/
+def fcrSrc (countPos : Rat) (countNeg : Rat) (len : Rat) : Except Unit (Rat) :=
+  .ok ((countPos + countNeg) / (len + ((0 : Rat) / 1)))
+
+/-- translated from localcider/backend/sequence.py:Sequence.NCPR (line 282) -/
+def ncprSrc (countPos : Rat) (countNeg : Rat) (len : Rat) : Except Unit (Rat) :=
+  .ok ((countPos - countNeg) / (len + ((0 : Rat) / 1)))
+
+/-- translated from localcider/backend/sequence.py:Sequence.FER (line 273) -/
+def ferSrc (countPos : Rat) (countNeg : Rat) (count_P : Rat) (len : Rat) : Except Unit (Rat) :=
+  .ok (((countPos + countNeg) + count_P) / (len + ((0 : Rat) / 1)))
+
+/-- translated from localcider/backend/sequence.py:Sequence.mean_net_charge (line 290) -/
+def mncSrc (NCPR : Rat) : Except Unit (Rat) :=
+  .ok (if NCPR < 0 then -NCPR else NCPR)
+
+/-- translated from localcider/backend/sequence.py:Sequence.delta (line 1146) -/
+def deltaSrc (deltaForm_5 : Rat) (deltaForm_6 : Rat) : Except Unit (Rat) :=
+  .ok ((deltaForm_5 + deltaForm_6) / (2 : Rat))
+
+/-- translated from localcider/backend/sequence.py:Sequence.deltaForm (line 1110) -/
+def deltaTermSrc (blob : Rat) (bpos : Rat) (bneg : Rat) (bloblen : Rat) (sigma : Rat) (nblobs : Rat) : Except Unit (Rat) :=
+  let bncpr : Rat := ((bpos - bneg) / (bloblen + ((0 : Rat) / 1)))
+  let bfcr : Rat := ((bpos + bneg) / (bloblen + ((0 : Rat) / 1)))
+  if (bfcr = (0 : Rat)) then
+    let bsig : Rat := (0 : Rat)
+    .ok (((sigma - bsig) * (sigma - bsig)) / nblobs)
+  else
+    let bsig : Rat := ((bncpr * bncpr) / bfcr)
+    .ok (((sigma - bsig) * (sigma - bsig)) / nblobs)
+
+/-- translated from localcider/backend/sequence.py:Sequence.linearDistOfNCPR (line 718) -/
+def flanksNCPR (bloblen : Int) (len : Int) : Except Unit (Int × Int × Int) :=
+  let nblobs : Int := ((len - bloblen) + (1 : Int))
+  let flank : Int := (Int.tdiv bloblen (2 : Int))
+  if ((((2 : Int) * flank) + nblobs) = len) then
+    let flank_start : Int := flank
+    let flank_end : Int := flank
+    .ok (flank_start, flank_end, nblobs)
+  else
+    let flank_start : Int := (flank - (1 : Int))
+    let flank_end : Int := flank
+    .ok (flank_start, flank_end, nblobs)
+
+/-- translated from localcider/backend/sequence.py:Sequence.linearDistOfFCR (line 756) -/
+def flanksFCR (bloblen : Int) (len : Int) : Except Unit (Int × Int × Int) :=
+  let nblobs : Int := ((len - bloblen) + (1 : Int))
+  let flank : Int := (Int.tdiv bloblen (2 : Int))
+  if ((((2 : Int) * flank) + nblobs) = len) then
+    let flank_start : Int := flank
+    let flank_end : Int := flank
+    .ok (flank_start, flank_end, nblobs)
+  else
+    let flank_start : Int := (flank - (1 : Int))
+    let flank_end : Int := flank
+    .ok (flank_start, flank_end, nblobs)
+
+/-- translated from localcider/backend/sequence.py:Sequence.linearDistOfSigma (line 791) -/
+def flanksSigma (bloblen : Int) (len : Int) : Except Unit (Int × Int × Int) :=
+  let nblobs : Int := ((len - bloblen) + (1 : Int))
+  let flank : Int := (Int.tdiv bloblen (2 : Int))
+  if ((((2 : Int) * flank) + nblobs) = len) then
+    let flank_start : Int := flank
+    let flank_end : Int := flank
+    .ok (flank_start, flank_end, nblobs)
+  else
+    let flank_start : Int := (flank - (1 : Int))
+    let flank_end : Int := flank
+    .ok (flank_start, flank_end, nblobs)
+
+/-- translated from localcider/backend/sequence.py:Sequence.linearDistOfHydropathy (line 834) -/
+def flanksHydro (bloblen : Int) (len : Int) : Except Unit (Int × Int × Int) :=
+  let nblobs : Int := ((len - bloblen) + (1 : Int))
+  let flank : Int := (Int.tdiv bloblen (2 : Int))
+  if ((((2 : Int) * flank) + nblobs) = len) then
+    let flank_start : Int := flank
+    let flank_end : Int := flank
+    .ok (flank_start, flank_end, nblobs)
+  else
+    let flank_start : Int := (flank - (1 : Int))
+    let flank_end : Int := flank
+    .ok (flank_start, flank_end, nblobs)
+
+/-- translated from localcider/backend/sequence.py:Sequence.linearDistOfHydropathy_2 (line 877) -/
+def flanksHydro2 (bloblen : Int) (len : Int) : Except Unit (Int × Int × Int) :=
+  let nblobs : Int := ((len - bloblen) + (1 : Int))
+  let flank : Int := (Int.tdiv bloblen (2 : Int))
+  if ((((2 : Int) * flank) + nblobs) = len) then
+    let flank_start : Int := flank
+    let flank_end : Int := flank
+    .ok (flank_start, flank_end, nblobs)
+  else
+    let flank_start : Int := (flank - (1 : Int))
+    let flank_end : Int := flank
+    .ok (flank_start, flank_end, nblobs)
+
+/-- translated from localcider/backend/sequence.py:Sequence.linearDenistyOfAAs (line 912) -/
+def flanksDensity (bloblen : Int) (targetAAs : Int) (len : Int) : Except Unit (Int × Int × Int) :=
+  let nblobs : Int := ((len - bloblen) + (1 : Int))
+  let flank : Int := (Int.tdiv bloblen (2 : Int))
+  if ((((2 : Int) * flank) + nblobs) = len) then
+    let flank_start : Int := flank
+    let flank_end : Int := flank
+    .ok (flank_start, flank_end, nblobs)
+  else
+    let flank_start : Int := (flank - (1 : Int))
+    let flank_end : Int := flank
+    .ok (flank_start, flank_end, nblobs)
+
 /-- which decision functions could be translated on this run -/
-def translatedDecisions : List String := ["phasePlotRegion", "kappaDecision", "sigmaDecision", "checkWindow", "verifyPH", "insideRelevant"]
+def translatedDecisions : List String := ["phasePlotRegion", "kappaDecision", "sigmaDecision", "checkWindow", "verifyPH", "insideRelevant", "fplusSrc", "fminusSrc", "fcrSrc", "ncprSrc", "ferSrc", "mncSrc", "deltaSrc", "deltaTermSrc", "flanksNCPR", "flanksFCR", "flanksSigma", "flanksHydro", "flanksHydro2", "flanksDensity"]
 
 end Cider.Gen
